@@ -377,11 +377,16 @@ class ExcelOpxWrapperNoData(ExcelOpxWrapper):
 
     class OpxRange(_OpxRange):
         def __new__(cls, range_data):
-            values = tuple(
-                tuple(ExcelOpxWrapperNoData.excel_value(*cell)
-                      for cell in zip(row_f, row_v))
-                for row_f, row_v in zip(range_data.formula, range_data.values)
-            )
+            if range_data.formula is None:
+                # range starts in a CSE array formula, but is not that array,
+                # the compiler will build these cells one at a time
+                values = tuple((None, ) * len(row) for row in range_data.values)
+            else:
+                values = tuple(
+                    tuple(ExcelOpxWrapperNoData.excel_value(*cell)
+                          for cell in zip(row_f, row_v))
+                    for row_f, row_v in zip(range_data.formula, range_data.values)
+                )
             return ExcelWrapper.RangeData.__new__(
                 cls, range_data.address, range_data.formula, values)
 
